@@ -167,6 +167,10 @@ func (c *udpCase) do(o udpOp, dead []bool) (rec M, ok bool) {
 		return nil, false // the transport under test has no Discard (the tree before the fix)
 	}
 	rec = M{"e": "op", "op": o.op, "id": 0, "size": 0, "c": 0}
+	wasOpen := make([]bool, c.n)
+	for i, ch := range c.childs {
+		wasOpen[i] = ch.IsOpen()
+	}
 	res := "ok"
 	func() {
 		defer func() {
@@ -227,7 +231,16 @@ func (c *udpCase) do(o udpOp, dead []bool) (rec M, ok bool) {
 		bl[i] = thriftudp.VerifBufLen(ch)
 		op[i] = ch.IsOpen()
 		got[i] = [][][2]int{}
-		for _, d := range c.sinks[i].drain(0) {
+		// a Flush that reported success has put one datagram on every destination's wire: wait for it; after any other
+		// call only what is already queued is taken
+		var dgrams [][]byte
+		if o.op == "flush" && wasOpen[i] && !dead[i] {
+			// this destination was open and its socket alive: a Flush that reaches it puts one datagram on its wire
+			dgrams = c.sinks[i].drainN(1, 300*time.Millisecond)
+		} else {
+			dgrams = c.sinks[i].drain(0)
+		}
+		for _, d := range dgrams {
 			seg := segment(d, c.sizes)
 			if seg == nil {
 				seg = [][2]int{}
@@ -275,6 +288,11 @@ func init() {
 		distinct := map[string]bool{}
 		var samples []interface{}
 		runCase := func(ops []udpOp, kind string) {
+			// fresh sinks per case: a datagram of an earlier case that is delivered late ends up at a closed socket
+			for i := range sinks {
+				sinks[i].close()
+				sinks[i] = newUDPSink()
+			}
 			c := newUDPCase(*n, *multi, sinks)
 			dead := make([]bool, *n)
 			tr.Emit(M{"e": "new", "kind": kind})
